@@ -24,7 +24,7 @@ if __name__ == '__main__':
 
 from vf import tlc                                                              # noqa: E402
 from vf.common import REPO, VERIF, MachineryError, Timer, ensure_repo_on_path, seed   # noqa: E402
-from vf.drivers.persistent_api import (_cfg as _pcfg, _os_alive_pid, _proc_start, _tla_seq, parent_watchdog,   # noqa: E402
+from vf.drivers.persistent_api import (_cfg as _pcfg, _sr, prefetch, _os_alive_pid, _proc_start, _tla_seq, parent_watchdog,   # noqa: E402
                                        run_jobs)
 from vf.report import Evidence, Violation, finish                               # noqa: E402
 
@@ -604,6 +604,10 @@ def run(prop, tier, replay=None):
 
     # ---- the design
     wit = {}
+    prefetch('RegistryMC', [(w, _cfg('Registry_mc.cfg', inv=[w])) for w in ('W_NoPrune', 'W_NoRestartAfterPrune', 'W_NoConcurrentDeath', 'W_NoTwoCallers', 'W_NoCreateDuringCall')] +
+             [('prefix', open(os.path.join(tlc.SPEC, 'Registry_prefix.cfg')).read()),
+              ('norereg', _cfg('Registry_mc.cfg', inv=['Inv_C19_Exact', 'Inv_C19_Autoclose'], FixRestart='FALSE')),
+              ('outsidelock', _cfg('Registry_mc.cfg', inv=['Inv_C19_Exact'], PruneOutsideLock='TRUE'))])
     r = tlc.run('RegistryMC', cfg_text=_cfg('Registry_mc.cfg', **({} if quick else {'MaxSteps': 7})), coverage=not quick, name='mc', timeout=3000)
     ev.add_tlc('exhaustive: 2 concurrent active_children() callers (lock / prune+copy / release / return) x create run|not-run x die x restart x autoclose, 3 workers', r)
     if r.error:
@@ -613,19 +617,19 @@ def run(prop, tier, replay=None):
     if rl.error:
         raise MachineryError('Live_CallReturns fails in the model: %s' % rl.error)
     for w in ('W_NoPrune', 'W_NoRestartAfterPrune', 'W_NoConcurrentDeath', 'W_NoTwoCallers', 'W_NoCreateDuringCall'):
-        rw = tlc.run('RegistryMC', cfg_text=_cfg('Registry_mc.cfg', inv=[w]), name=w, must_complete=False)
+        rw = _sr('RegistryMC', cfg_text=_cfg('Registry_mc.cfg', inv=[w]), name=w, must_complete=False)
         if rw.error != 'invariant:' + w:
             raise MachineryError('witness %s not reachable (vacuous model): %s' % (w, rw.error))
         wit[w] = 'reached'
-    rp = tlc.run('RegistryMC', 'Registry_prefix.cfg', name='prefix', must_complete=False)
+    rp = _sr('RegistryMC', 'Registry_prefix.cfg', name='prefix', must_complete=False)
     if not (rp.error or '').startswith('invariant:Inv_C19'):
         raise MachineryError('the current registry code (pruned list assigned to Worker._children) is not rejected by the model checker: %s' % rp.error)
     wit['current_code_model'] = rp.error
-    rr = tlc.run('RegistryMC', cfg_text=_cfg('Registry_mc.cfg', inv=['Inv_C19_Exact', 'Inv_C19_Autoclose'], FixRestart='FALSE'), name='norereg', must_complete=False)
+    rr = _sr('RegistryMC', cfg_text=_cfg('Registry_mc.cfg', inv=['Inv_C19_Exact', 'Inv_C19_Autoclose'], FixRestart='FALSE'), name='norereg', must_complete=False)
     if not (rr.error or '').startswith('invariant:Inv_C19'):
         raise MachineryError('prune fixed but register_child still skipped on restart: not rejected by the model checker: %s' % rr.error)
     wit['prune_fixed_restart_not_registered_model'] = rr.error
-    ro = tlc.run('RegistryMC', cfg_text=_cfg('Registry_mc.cfg', inv=['Inv_C19_Exact'], PruneOutsideLock='TRUE'), name='outsidelock', must_complete=False)
+    ro = _sr('RegistryMC', cfg_text=_cfg('Registry_mc.cfg', inv=['Inv_C19_Exact'], PruneOutsideLock='TRUE'), name='outsidelock', must_complete=False)
     if ro.error != 'invariant:Inv_C19_Exact':
         raise MachineryError('liveness evaluated between two lock sections (a racing registration is overwritten): not rejected by the model checker: %s' % ro.error)
     wit['prune_outside_lock_model'] = ro.error
